@@ -577,7 +577,8 @@ StressToks(c) ==
 (* ch = <<setup, value shape, use, position>>                              *)
 
 ScopeSetups == {"single", "chain", "redef", "overparam", "paramonly", "paramchain", "after", "unused", "shadowlater", "collide"}
-ValueShapes == {"lit", "neg", "bin", "call", "ref", "negref", "paren", "str", "const", "notcall", "isnullcall", "strcatcall", "iffcall", "index"}
+ValueShapes == {"lit", "neg", "bin", "call", "ref", "negref", "paren", "str", "const", "notcall", "isnullcall", "strcatcall", "iffcall", "index",
+                "parenneg", "paren2neg", "paren2pos", "paren2lit"}
 ShapesFor(setup) ==
   CASE setup \in {"chain", "shadowlater", "paramchain"} -> ValueShapes
     [] setup = "paramonly" -> {"lit"}
@@ -590,6 +591,11 @@ LetValue(shape) ==
     [] shape = "strcatcall" -> Call("strcat", <<Str("a"), Str("b")>>)
     [] shape = "iffcall" -> Call("iff", <<Col("true"), Num("1"), Num("2")>>)
     [] shape = "index" -> Index(Call("f", <<Num("1")>>), Num("2"))
+    \* the user's own parentheses around a signed or plain value, one and two levels
+    [] shape = "parenneg" -> Paren(Un("Minus", Num("5")))
+    [] shape = "paren2neg" -> Paren(Paren(Un("Minus", Num("5"))))
+    [] shape = "paren2pos" -> Paren(Paren(Un("Plus", Num("5"))))
+    [] shape = "paren2lit" -> Paren(Paren(Num("3")))
 \* items before the query, items after it, parameters (name -> snippet)
 SetupBefore(setup, shape) ==
   LET V == LetValue(shape) IN
